@@ -12,7 +12,15 @@ _H_TECH = ("TLA+ spec of the handler (Handler.tla: handler/mod.rs, session.rs, a
            "replayed on the real Handler; every recorded step validated by TLC: strict conformance (events, datagrams, exemption map, bookkeeping) and ")
 _Q_NOTE = ("Binding through the QueryFacade hook (explicit time). The service-level half (callback fires exactly once, pool query timeout) is not yet bound; "
            "liveness is model-checked on the specification (with weak fairness of polling and time) and checked on the code in its bounded form (a drain loop must reach Finished).")
+_S_NOTE = ("The real Service is run with a scripted handler (hook H4): the harness receives every HandlerIn and injects HandlerOut events on a paused tokio clock. "
+           "Node ids are hashes of fixed keys (pool geometry); the Handler and the UDP tasks are not part of these runs.")
 META = {
+ "C14": dict(technique="TLA+ transcription of send_nodes_response (Serve.tla) with RLP/datagram size arithmetic, TLC-exhaustive over all record-size sequences; TLC-simulated FINDNODE/PING behaviours executed on the real service; each answer measured by really encrypting and encoding it, judged by TLC (C14.* monitor formulas)",
+   text="Design: every sequence of record sizes {120,129,299,300} up to 7 (quick) / 9 and {129,300} up to 17 records, id lengths 0/2/8: every packet fits 1280 bytes and all records are sent. Code: generated tables (incl. 300-byte records), distance lists (empty, duplicates, unsorted, out of range, 0), id lengths and requester addresses; answers compared with the table observed before the request.",
+   note=_S_NOTE),
+ "C20": dict(technique="TLA+ spec of TALK request objects (Talk.tla) model-checked exhaustively (OnceInv, ExactInv, HeldSilent); every order of respond/drop/hold/shutdown up to 3 concurrent requests, goal and simulation behaviours replayed on the real service; responses judged by TLC (C20.* monitor formulas) and compared step by step with the specification (strict)",
+   text="All interleavings of deliver / respond / drop / shutdown for 3 requests on the specification; on the code the same behaviours plus longer simulated ones; after shutdown the harness closes the transport end as the real handler does, so respond must return an error value and drop must be silent (a panic is reported).",
+   note=_S_NOTE),
  "C09": dict(technique="TLA+ transcription of FindNodeQuery/PredicateQuery (Query.tla) model-checked with TLC incl. the liveness formula; TLC goal/simulation behaviours and a random driver executed on the real state machines; traces validated by TLC (strict conformance of every peer state + monitor formulas C09.ContactTwice / Parallelism / NotTerminated)",
    text="All event orders (success, failure, silence, late success, any returned peer sets) for 4 peers exhaustively on the specification with CapInv, NwInv, ContactOnce and termination; on the code thousands of generated and random call sequences with up to 24 peers, each drained to completion.",
    note=_Q_NOTE),
